@@ -46,8 +46,9 @@ def lean_search(groups, seed, samples=1500, timeout=900):
         rest = parts[2:]
         new = next((x[4:] for x in rest if x.startswith("new=")), "")
         old = next((x[4:] for x in rest if x.startswith("old=")), "")
-        args = [x for x in rest if not x.startswith("new=") and not x.startswith("old=") and not re.match(r"^\w+=\d+$", x)]
-        cex.append({"fn": fn, "args": args, "new": new[:300], "old": old[:300]})
+        args = [x for x in rest if x != "" and not x.startswith("new=") and not x.startswith("old=") and not re.match(r"^\w+=\d+$", x)]
+        consts = {x.split("=")[0]: int(x.split("=")[1]) for x in rest if re.match(r"^[A-Z]\w*=\d+$", x)}   # const generics: N=3
+        cex.append({"fn": fn, "args": args, "consts": consts, "new": new[:300], "old": old[:300]})
     return cex, ""
 
 
@@ -67,8 +68,214 @@ def _valid_utf8(bs):
         return False
 
 
+# ---------------------------------------------------------------------------------------------
+# Lean `repr` text -> Python value.  nat -> int; `none` -> ("none",); `some x` -> ("some", x); `Except.ok x` /
+# `Except.error e` -> ("ok", x) / ("err", e); `[a, b]` -> list; `(a, b)` -> tuple; `{ f := v, … }` -> dict;
+# `true`/`false` -> bool; any other (dotted) name, e.g. `Extracted.ParseDirection.FromStart` -> ("ctor", name)
+
+class _P:
+    def __init__(self, s):
+        self.s, self.i = s, 0
+
+    def ws(self):
+        while self.i < len(self.s) and self.s[self.i] in " \n\t":
+            self.i += 1
+
+    def peek(self):
+        self.ws()
+        return self.s[self.i] if self.i < len(self.s) else ""
+
+    def eat(self, ch):
+        if self.peek() != ch:
+            raise ValueError(f"expected {ch!r} at {self.i} in {self.s[:80]!r}")
+        self.i += 1
+
+    def word(self):
+        self.ws()
+        m = re.compile(r"[A-Za-z_][A-Za-z_0-9.']*").match(self.s, self.i)
+        if not m:
+            return None
+        self.i = m.end()
+        return m.group(0)
+
+    def atom(self):
+        c = self.peek()
+        if c == "(":
+            self.i += 1
+            if self.peek() == ")":
+                self.i += 1
+                return ()
+            xs = [self.value()]
+            while self.peek() == ",":
+                self.i += 1
+                xs.append(self.value())
+            self.eat(")")
+            return xs[0] if len(xs) == 1 else tuple(xs)
+        if c == "[":
+            self.i += 1
+            xs = []
+            if self.peek() != "]":
+                xs.append(self.value())
+                while self.peek() == ",":
+                    self.i += 1
+                    xs.append(self.value())
+            self.eat("]")
+            return xs
+        if c == "{":
+            self.i += 1
+            d = {}
+            while self.peek() != "}":
+                k = self.word()
+                self.ws()
+                if not self.s.startswith(":=", self.i):
+                    raise ValueError("expected :=")
+                self.i += 2
+                d[k] = self.value()
+                if self.peek() == ",":
+                    self.i += 1
+            self.eat("}")
+            return d
+        if c.isdigit():
+            m = re.compile(r"[0-9]+").match(self.s, self.i)
+            self.i = m.end()
+            return int(m.group(0))
+        w = self.word()
+        if w is None:
+            raise ValueError(f"unexpected {c!r} at {self.i}")
+        return {"true": True, "false": False, "none": ("none",)}.get(w, ("ctor", w))
+
+    def value(self):
+        """an application `some x` / `Except.ok x` or an atom"""
+        v = self.atom()
+        if isinstance(v, tuple) and len(v) == 2 and v[0] == "ctor" and v[1] in ("some", "Except.ok", "Except.error"):
+            arg = self.atom()
+            return ({"some": "some", "Except.ok": "ok", "Except.error": "err"}[v[1]], arg)
+        return v
+
+
+def parse_repr(text):
+    p = _P(text)
+    v = p.value()
+    if p.peek() != "":
+        raise ValueError("trailing text")
+    return v
+
+
+# kinds of replay_map.py that are built from a type: name -> type term
+#   int types | ("opt", t) | ("res", ok, err) | ("slice", t) | ("array", t) | ("array_ref", t) | ("tuple", t…)
+STRUCTURED = {
+    "opt_u32": ("opt", "u32"), "opt_u8": ("opt", "u8"), "opt_opt_u32": ("opt", ("opt", "u32")),
+    "res_u32_u8": ("res", "u32", "u8"),
+    "u32s": ("slice", "u32"), "u32ss": ("slice", ("slice", "u32")),
+    "pair_u32": ("tuple", "u32", "u32"),
+    "arr_u32": ("array", "u32"), "arr_ref_u32": ("array_ref", "u32"),
+}
+_LIM = {"usize": 2**64, "u64": 2**64, "u32": 2**32, "u16": 2**16, "u8": 256}
+
+
+def rust_value(ty, v, nested=False):
+    """(Rust type, Rust expression) of the parsed Lean value `v` at type term `ty`; None outside the Rust type"""
+    if isinstance(ty, str):
+        if not isinstance(v, int) or isinstance(v, bool) or v >= _LIM[ty]:
+            return None
+        return ty, f"{v}{ty}"
+    k = ty[0]
+    if k == "opt":
+        if v == ("none",):
+            inner = rust_type(ty[1])
+            return f"Option<{inner}>", f"None::<{inner}>"
+        if isinstance(v, tuple) and len(v) == 2 and v[0] == "some":
+            r = rust_value(ty[1], v[1])
+            return r and (f"Option<{r[0]}>", f"Some({r[1]})")
+        return None
+    if k == "res":
+        tt = f"Result<{rust_type(ty[1])}, {rust_type(ty[2])}>"
+        if isinstance(v, tuple) and len(v) == 2 and v[0] in ("ok", "err"):
+            r = rust_value(ty[1] if v[0] == "ok" else ty[2], v[1])
+            return r and (tt, f"{'Ok' if v[0] == 'ok' else 'Err'}::<{rust_type(ty[1])}, {rust_type(ty[2])}>({r[1]})")
+        return None
+    if k in ("slice", "array", "array_ref"):
+        if not isinstance(v, list):
+            return None
+        es = [rust_value(ty[1], x, nested=True) for x in v]
+        if any(e is None for e in es):
+            return None
+        inner = rust_type(ty[1])
+        lit = "[" + ", ".join(e[1] for e in es) + "]"
+        if k == "array":
+            return f"[{inner}; {len(v)}]", lit
+        if k == "array_ref":
+            return f"&[{inner}; {len(v)}]", "&" + lit
+        return f"&[{inner}]", f"(&{lit} as &[{inner}])"
+    if k == "tuple":
+        if not isinstance(v, tuple) or len(v) != len(ty) - 1:
+            return None
+        es = [rust_value(t_, x) for t_, x in zip(ty[1:], v)]
+        if any(e is None for e in es):
+            return None
+        return "(" + ", ".join(e[0] for e in es) + ")", "(" + ", ".join(e[1] for e in es) + ")"
+    return None
+
+
+def rust_type(ty):
+    if isinstance(ty, str):
+        return ty
+    k = ty[0]
+    if k == "opt":
+        return f"Option<{rust_type(ty[1])}>"
+    if k == "res":
+        return f"Result<{rust_type(ty[1])}, {rust_type(ty[2])}>"
+    if k == "slice":
+        return f"&[{rust_type(ty[1])}]"
+    if k == "tuple":
+        return "(" + ", ".join(rust_type(x) for x in ty[1:]) + ")"
+    raise ValueError(ty)
+
+
+def parser_binding(i, text):
+    """`{ parse_direction := …, yielded_last_split := …, start_offset := n, str := [bytes] }` ->
+    `Parser::with_start_offset(str, n)`; only the state that constructor builds (direction FromStart, the split flag
+    unset), a UTF-8 remainder, and `start_offset + len < 2^32` (the bound of the equivalence theorems: past it the
+    u32 offset arithmetic overflows in the macro and in the method chain alike)"""
+    v = parse_repr(text)
+    if not isinstance(v, dict):
+        return None
+    d = v.get("parse_direction")
+    if not (isinstance(d, tuple) and d[0] == "ctor" and d[1].endswith("ParseDirection.FromStart")):
+        return None
+    if v.get("yielded_last_split") is not False:
+        return None
+    bs, off = v.get("str"), v.get("start_offset")
+    if not isinstance(bs, list) or not all(isinstance(b, int) and b < 256 for b in bs) or not _valid_utf8(bs):
+        return None
+    if not isinstance(off, int) or off + len(bs) >= 2**32:
+        return None
+    lit = "[" + ", ".join(f"{b}u8" for b in bs) + "]"
+    return (f"let a{i}_b: &[u8] = &{lit}; let a{i}_s: &str = std::str::from_utf8(a{i}_b).unwrap(); let a{i}_off: usize = {off}usize; "
+            f"let a{i}: konst::Parser<'_> = konst::Parser::with_start_offset(a{i}_s, a{i}_off);")
+
+
+def _array_len(text):
+    try:
+        v = parse_repr(text)
+    except ValueError:
+        return None
+    return len(v) if isinstance(v, list) else None
+
+
 def rust_binding(kind, i, text):
     """Rust `let a<i> = …;` for a Lean repr, or None when the value is outside the public API's domain"""
+    if kind in STRUCTURED:
+        try:
+            r = rust_value(STRUCTURED[kind], parse_repr(text))
+        except ValueError:
+            return None
+        return r and f"let a{i}: {r[0]} = {r[1]};"
+    if kind == "parser":
+        try:
+            return parser_binding(i, text)
+        except ValueError:
+            return None
     if kind in ("bytes", "str", "chars"):
         src = text
         if kind == "chars":
@@ -117,9 +324,14 @@ def replay_on_implementation(cex, workdir):
         binds = [rust_binding(k, i, a) for i, (k, a) in enumerate(zip(kinds, c["args"]))]
         if any(b is None for b in binds):
             continue
+        if any(STRUCTURED.get(k, ("",))[0] in ("array", "array_ref") and _array_len(a) != c.get("consts", {}).get("N")
+               for k, a in zip(kinds, c["args"])):
+            continue    # `[T; N]` with another number of elements is not a value of the Rust type
         idx = len(kept)
         guard = f"if !({skip}) " if skip else ""
-        blocks.append("{ " + " ".join(binds) + f" {guard}{{ let k = show(catch_unwind(AssertUnwindSafe(|| {konst_e}))); "
+        # const generics of the counterexample (N=3) are constants of the block: `[usize; N]` in the expressions
+        binds = [f"const {n}: usize = {v};" for n, v in sorted(c.get("consts", {}).items()) if v < 2**64] + binds
+        blocks.append(f"fn r{idx}() {{ " + " ".join(binds) + f" {guard}{{ let k = show(catch_unwind(AssertUnwindSafe(|| {konst_e}))); "
                       f"let s = show(catch_unwind(AssertUnwindSafe(|| {std_e}))); println!(\"REPLAY\\t{idx}\\t{{}}\\t{{}}\", k, s); }} }}")
         kept.append(dict(c, konst_expr=konst_e, std_expr=std_e))
     if not kept:
@@ -127,7 +339,9 @@ def replay_on_implementation(cex, workdir):
     os.makedirs(workdir, exist_ok=True)
     src = os.path.join(workdir, "xreplay.rs")
     with open(src, "w") as f:
-        f.write(m.PRELUDE + "\nfn main() {\n    std::panic::set_hook(Box::new(|_| {}));\n" + "\n".join("    " + b for b in blocks) + "\n}\n")
+        # one function per replayed input (rustc's time is superlinear in the size of a single function body)
+        f.write(m.PRELUDE + "\n" + "\n".join(blocks) + "\nfn main() {\n    std::panic::set_hook(Box::new(|_| {}));\n"
+                + "\n".join(f"    r{i}();" for i in range(len(blocks))) + "\n}\n")
     exe = os.path.join(workdir, "xreplay")
     rc, err = common.compile_one(src, exe)
     if rc != 0:
@@ -138,7 +352,8 @@ def replay_on_implementation(cex, workdir):
         if line.startswith("REPLAY\t"):
             _, idx, k, s = line.split("\t", 3)
             c = kept[int(idx)]
-            res.append({"fn": c["fn"], "args": c["args"], "konst_call": c["konst_expr"], "std_call": c["std_expr"],
+            res.append({"fn": c["fn"], "args": c["args"], **({"const_generics": c["consts"]} if c.get("consts") else {}),
+                        "konst_call": c["konst_expr"], "std_call": c["std_expr"],
                         "konst": k[:300], "std": s[:300], "differs": k != s,
                         "extracted_now": c["new"], "extracted_committed": c["old"]})
     return res
